@@ -203,29 +203,29 @@ Variable o : jopts.
 Hypothesis HCN : cn_ok o.
 Hypothesis HNB : o_msgs o = None.
 
-Lemma gres_mod_auto a' st i b a s n : shape st i b a s n -> gres (jmod (set_auto a')) st [] i b a' s n.
-Proof. intro H. exists (set_auto a' st). split; [reflexivity|]. destruct st; cbn in *. split; [reflexivity|]. destruct H as (? & ? & ? & ? & ?). repeat split; assumption. Qed.
-Lemma gres_mod_buf b' st i b a s n : shape st i b a s n -> gres (jmod (set_buf b')) st [] i b' a s n.
-Proof. intro H. exists (set_buf b' st). split; [reflexivity|]. destruct st; cbn in *. split; [reflexivity|]. destruct H as (? & ? & ? & ? & ?). repeat split; assumption. Qed.
-Lemma gres_mod_infile f st i b a s n : shape st i b a s n -> gres (jmod (fun x => set_infile (f x) x)) st [] i b a s n.
-Proof. intro H. exists (set_infile (f st) st). split; [reflexivity|]. destruct st; cbn in *. split; [reflexivity|exact H]. Qed.
-Lemma gres_push st i b a s n : shape st i b a s n -> gres jsc_push st [] i b a ([] :: s) n.
+Lemma gres_mod_auto a' st i b a s n : shape st i b a s n -> gres o (jmod (set_auto a')) st [] i b a' s n.
+Proof. intro H. exists (set_auto a' st). split; [reflexivity|]. destruct st; cbn in *. split; [reflexivity|]. destruct H as (? & ? & ? & ? & ?). repeat split; try assumption; intros _; reflexivity. Qed.
+Lemma gres_mod_buf b' st i b a s n : shape st i b a s n -> gres o (jmod (set_buf b')) st [] i b' a s n.
+Proof. intro H. exists (set_buf b' st). split; [reflexivity|]. destruct st; cbn in *. split; [reflexivity|]. destruct H as (? & ? & ? & ? & ?). repeat split; try assumption; intros _; reflexivity. Qed.
+Lemma gres_mod_infile f st i b a s n : shape st i b a s n -> gres o (jmod (fun x => set_infile (f x) x)) st [] i b a s n.
+Proof. intro H. exists (set_infile (f st) st). split; [reflexivity|]. destruct st; cbn in *. split; [reflexivity|]. split; [exact H|reflexivity]. Qed.
+Lemma gres_push st i b a s n : shape st i b a s n -> gres o jsc_push st [] i b a ([] :: s) n.
 Proof.
   intros (I1 & B1 & A1 & S1 & N1). exists (set_scope ([] :: j_scope st) (j_n st) st). split; [reflexivity|].
-  split; [destruct st; reflexivity|]. unfold shape. cbn [j_indent j_buf j_auto j_scope j_n set_scope]. rewrite S1. repeat split; assumption.
+  split; [destruct st; reflexivity|]. split; [|destruct st; reflexivity]. unfold shape. cbn [j_indent j_buf j_auto j_scope j_n set_scope]. rewrite S1. repeat split; assumption.
 Qed.
 
 Tactic Notation "gbind" ident(x) ident(H) := eapply gres_bind; [ | intros x H ].
 
 Lemma gres_template_head ae st i b a s n : shape st i b a s n ->
-  gres (template_head ae) st (sp_ind i ++ [] ++ [CText t_nl]) i b (template_mode a ae) s n.
+  gres o (template_head ae) st (sp_ind i ++ [] ++ [CText t_nl]) i b (template_mode a ae) s n.
 Proof.
   intro H. unfold template_head, template_mode. destruct (ae =? 0).
   - eapply gres_eq; [eapply gres_bind; [eapply gres_ret; exact H|intros x Hx; eapply gres_sln; exact Hx]|reflexivity].
   - eapply gres_eq; [eapply gres_bind; [eapply gres_mod_auto; exact H|intros x Hx; eapply gres_sln; exact Hx]|reflexivity].
 Qed.
 Lemma gres_optline (c : bool) st i b a s n : shape st i b a s n ->
-  gres (if c then jsln [CText t_optdata_init] else jret tt) st (if c then sp_ind i ++ [CText t_optdata_init] ++ [CText t_nl] else []) i b a s n.
+  gres o (if c then jsln [CText t_optdata_init] else jret tt) st (if c then sp_ind i ++ [CText t_optdata_init] ++ [CText t_nl] else []) i b a s n.
 Proof. intro H. destruct c; [apply gres_sln; exact H|apply gres_ret; exact H]. Qed.
 
 (* the flag visitTemplate computes from the soydoc node before the template *)
@@ -236,12 +236,12 @@ Theorem gen_template t lv F st jb n' bf sc n :
   (S (bdepth (ct_body t)) < F)%nat -> bwf lv (ct_body t) = true -> lvok lv ([] :: sc) ->
   shape st 0 bf (ct_ns_ae t) sc n ->
   bgen (ct_mode t) t_output ([] :: [] :: sc) n (ct_body t) = (jb, n') ->
-  gres (jwalk o F (t_node (c04_template t))) st
+  gres o (jwalk o F (t_node (c04_template t))) st
        (c04_tprint (template_header_line o (ct_name t)) (c04_allopt (j_cur st)) jb) 0 t_output (ct_ns_ae t) sc n'.
 Proof.
   intros Hf Hwf Hlv Hs Eg. destruct F as [|F1]; [lia|]. cbn [c04_template t_node].
   eapply gres_walk; [reflexivity|exact Hs|]. intros st1 H1. cbn [jwalk_node]. unfold visit_template.
-  eapply gres_step; [reflexivity|reflexivity|]. cbn zeta.
+  eapply gres_step; [reflexivity|split; reflexivity|]. cbn zeta.
   replace (j_auto st1) with (ct_ns_ae t) by (symmetry; apply H1).
   fold (c04_allopt (j_cur st)).
   eapply gres_eq.
@@ -262,7 +262,7 @@ Proof.
     gbind x11 Hx11. eapply gres_dec; exact Hx10.
     gbind x12 Hx12. eapply gres_sln; exact Hx11.
     gbind x13 Hx13. eapply gres_mod_auto; exact Hx12.
-    eapply (gres_pop x13 _ _ _ [] sc); exact Hx13.
+    eapply (gres_pop o x13 _ _ _ [] sc); exact Hx13.
   - unfold c04_tprint, sp_ind. destruct (c04_allopt (j_cur st)); repeat rewrite <- app_assoc; cbn [app]; rewrite ?app_nil_r; reflexivity.
 Qed.
 
@@ -273,7 +273,7 @@ Definition c04_file_chunks (p : list ctmpl) (n : N) : list chunk :=
 Theorem gen_templates nsae F : forall p n st bf,
   (forall t, In t p -> ct_ns_ae t = nsae /\ (S (S (bdepth (ct_body t))) < F)%nat /\ bwf [] (ct_body t) = true) ->
   shape st 0 bf nsae [[]] n ->
-  exists bf' n', gres (jwalk_list (jwalk o F) (flat_map c04_doc_nodes p)) st (c04_file_chunks p n) 0 bf' nsae [[]] n'.
+  exists bf' n', gres o (jwalk_list (jwalk o F) (flat_map c04_doc_nodes p)) st (c04_file_chunks p n) 0 bf' nsae [[]] n'.
 Proof.
   induction p as [|t r IH]; intros n st bf Hall Hs.
   - exists bf, n. cbn [flat_map jwalk_list c04_file_chunks c04_chain]. apply gres_ret; exact Hs.
@@ -291,9 +291,11 @@ Proof.
     destruct (bgen (ct_mode t) t_output c04_body_scope n (ct_body t)) as [jb n1] eqn:Eg.
     pose proof (gen_template t [] (S F1) st1 jb n1 bf [[]] n ltac:(lia) Hwf ltac:(intros x Hx; discriminate Hx) H1 Eg) as G2. rewrite Hao in G2.
     change (NTemplate 0 (ct_name t) (NList 0 (bnodes (ct_body t))) (ct_ae t) false) with (t_node (c04_template t)).
-    destruct G2 as (st2 & E2 & O2 & H2).
-    destruct (IH n1 st2 t_output (fun t' Ht' => Hall t' (or_intror Ht')) H2) as (bf' & n' & (st3 & E3 & O3 & H3)).
-    exists bf', n', st3. rewrite (jbind_ok _ _ _ _ _ E1), (jbind_ok _ _ _ _ _ E2). split; [exact E3|]. split; [|exact H3].
+    destruct G2 as (st2 & E2 & O2 & H2 & C2).
+    destruct (IH n1 st2 t_output (fun t' Ht' => Hall t' (or_intror Ht')) H2) as (bf' & n' & (st3 & E3 & O3 & H3 & C3)).
+    assert (C1 : j_called st1 = j_called st) by (subst st1; destruct st; reflexivity).
+    exists bf', n', st3. rewrite (jbind_ok _ _ _ _ _ E1), (jbind_ok _ _ _ _ _ E2). split; [exact E3|].
+    split; [|split; [exact H3|intro HF; rewrite (C3 HF), (C2 HF); exact C1]].
     cbn [snd]. unfold c04_jbody at 1. rewrite Eg. cbn [fst]. rewrite O3, O2, O1, rev_app_distr, app_assoc. reflexivity.
 Qed.
 End TemplateChunks.
@@ -313,7 +315,7 @@ Theorem gen_correct_partial_template cf o p cnt :
   /\ (* Gen: that function is what visitTemplate writes, from the counter cnt name *)
      (forall F st bf, (S (bdepth (ct_body t)) < F)%nat -> bwf [] (ct_body t) = true ->
         shape st 0 bf (ct_ns_ae t) [[]] (cnt name) -> c04_allopt (j_cur st) = ct_allopt t ->
-        gres (jwalk o F (t_node (c04_template t))) st
+        gres o (jwalk o F (t_node (c04_template t))) st
              (c04_tprint (template_header_line o name) (ct_allopt t) (c04_jbody t (cnt name))) 0 t_output (ct_ns_ae t) [[]]
              (snd (bgen (ct_mode t) t_output c04_body_scope (cnt name) (ct_body t)))).
 Proof.
